@@ -23,12 +23,46 @@ def preempt_scenario(seed):
     for _ in range(nb):
         n = rng.randint(2, 5)
         pipes.append({"prio": rng.choice([3, 3, 2]), "ops": [gen_e.simple_op(tps, rng.randint(1, 3), fixed=F(1, 64), parents=[i - 1] if i else []) for i in range(n)]})
-    nq = rng.randint(1, 4)
+    nq = rng.randint(1, 5)
     for _ in range(nq):
-        pipes.append({"prio": 1, "ops": [gen_e.simple_op(tps, rng.randint(1, 4), fixed=F(1, 64))]})
+        # query pipelines with one or several operators (hand-built / trace workloads may have multi-operator queries)
+        k = rng.choice([1, 1, 2, 3])
+        pipes.append({"prio": 1, "ops": [gen_e.simple_op(tps, rng.randint(1, 4), fixed=F(1, 64), parents=[i - 1] if i else []) for i in range(k)]})
     nticks = 60
     arrivals = [[] for _ in range(nticks)]
     arrivals[0] = list(range(nb))
-    for k in range(nq):
-        arrivals[rng.randint(1, 8)].append(nb + k)
+    if rng.random() < 0.4:
+        # some query work is already running when the pools fill up
+        arrivals[0] = [nb + k for k in range(nq // 2)] + arrivals[0]
+        for k in range(nq // 2, nq):
+            arrivals[rng.randint(1, 8)].append(nb + k)
+    else:
+        for k in range(nq):
+            arrivals[rng.randint(1, 8)].append(nb + k)
     return {"layer": "S", "algo": "priority", "cfg": cfg, "pipes": pipes, "steps": [], "arrivals": arrivals}
+
+
+def pp_exact_fit_scenario(seed):
+    """priority-pool: a pipeline is OOM-retried with doubled sizes while filler containers hold the rest of its pool, so that a
+    doubled request meets exactly what is free (in RAM or in CPUs); more work for the same pool arrives afterwards"""
+    rng = random.Random(seed)
+    tps = rng.choice([1, 2, 4])
+    unit = rng.choice([1, 2, 10])                      # a tenth of the pool's RAM, in GB
+    cpus = rng.choice([10, 20, 40, 64])
+    cfg = {"tps": tps, "multi": True, "over": False, "npools": 2, "cpus": cpus, "ram": fstr(10 * unit)}
+    prio = rng.choice([3, 3, 2])
+    fill = rng.choice([6, 6, 5, 7, 2])
+    pipes = [{"prio": prio, "ops": [gen_e.simple_op(tps, rng.randint(30, 60), fixed=F(1, 64))]} for _ in range(fill)]
+    need = rng.choice([F(unit) * 3, F(unit) * 5 / 2, F(unit) * 3 / 2])
+    if (need * 64).denominator != 1:
+        need = F(unit) * 3
+    pipes.append({"prio": prio, "ops": [gen_e.simple_op(tps, 3, fixed=need)]})
+    late = rng.randint(1, 3)
+    for _ in range(late):
+        pipes.append({"prio": prio, "ops": [gen_e.simple_op(tps, 2, fixed=F(1, 64))]})
+    nticks = 40
+    arrivals = [[] for _ in range(nticks)]
+    arrivals[0] = list(range(fill + 1))
+    for k in range(late):
+        arrivals[rng.randint(2, 8)].append(fill + 1 + k)
+    return {"layer": "S", "algo": "priority-pool", "cfg": cfg, "pipes": pipes, "steps": [], "arrivals": arrivals}
